@@ -17,7 +17,8 @@ from ..render import render_v3000
 
 ID = "C12"
 RULE = (
-    "case = pool of 1-3 generated molecules (reader / parser / constructor graphs with unique "
+    "case = pool of 1-3 generated molecules (reader / parser / constructor graphs and graphs whose "
+    "labels differ from their iteration positions, with unique "
     "coordinate tags, random charges and bond types) + a history of up to 12 operations "
     "(canonicalize(obj), serialize(obj), serialize(canonicalize(obj)), each possibly repeated on "
     "the same object; results of canonicalize join the pool); invariants after every step: result "
@@ -42,7 +43,7 @@ def budget(tier):
 def strategy_(draw, tier):
     k = draw(st.integers(1, 3))
     mols = [draw(gens.mols(tier, families=("er", "skeleton", "chem", "er", "multi"))) for _ in range(k)]
-    prods = [draw(st.sampled_from(["constructor", "reader", "parser"])) for _ in range(k)]
+    prods = [draw(st.sampled_from(["constructor", "reader", "parser", "relabelled", "relabelled"])) for _ in range(k)]
     ops = draw(st.lists(st.tuples(st.sampled_from(["canon", "ser", "pipe", "canon", "ser"]), st.integers(0, 7)), min_size=1, max_size=12))
     return {"mols": mols, "producers": prods, "ops": [list(o) for o in ops], "orders": [draw(gens.perms(len(m["atoms"]))) for m in mols]}
 
@@ -72,6 +73,17 @@ def make(mol_json, producer, order):
                 g.nodes[v][GA.CHG] = (k % 3) - 2
         for k, (a, b) in enumerate(list(g.edges)):
             g.edges[a, b][GA.BOND_TYPE] = 1 + k % 3
+    elif producer == "relabelled":
+        import networkx as nx
+
+        g0 = mol_to_graph(mol)
+        # same label set 0..n-1, iteration order untouched: labels != positions
+        g = nx.relabel_nodes(g0, {v: order[k] for k, v in enumerate(g0.nodes)}, copy=True)
+        for k, (a, b) in enumerate(list(g.edges)):
+            g.edges[a, b][GA.BOND_TYPE] = 1 + k % 4
+        for k, v in enumerate(list(g.nodes)):
+            if k % 4 == 1:
+                g.nodes[v][GA.CHG] = 1
     else:
         g = mol_to_graph(mol, order)
     for k, v in enumerate(list(g.nodes)):
